@@ -858,7 +858,8 @@ class VM:
 
                 # Create prototype object for the function
                 # In JavaScript, every function has a prototype property
-                prototype = JSObject()
+                object_constructor = self.globals.get("Object")
+                prototype = JSObject(getattr(object_constructor, "_prototype", None))
                 prototype.set("constructor", js_func)
                 js_func._prototype = prototype
 
